@@ -159,7 +159,7 @@ theorem applyOp_good (C : TQContract) (s : State) (o : Op) (hg : Good C s) : Goo
       exact good_ignored hg _ (ignored_skip _ (by intro us h; cases h)) (by first | rfl | exact hf) rfl rfl rfl rfl rfl rfl rfl
     · simp only [hc, Bool.false_eq_true, if_false]
       have hl : isLive s id = false := by simpa using hc
-      rcases netRegister_spec s.net id fd d hr.net.inv with ⟨id0, _, heq⟩ | ⟨hfree, n', heq, hinv, _, hslot, hent, hrev⟩
+      rcases netRegister_spec s.net id fd d hr.net.inv with ⟨id0, _, heq⟩ | ⟨hfree, n', heq, hinv, _, hslot, hent, hrev, _⟩
       · simp only [heq]
         exact good_ignored hg _ (ignored_eexist id fd d) (by first | rfl | exact hf) rfl rfl rfl rfl rfl rfl rfl
       · simp only [heq]
